@@ -10,6 +10,7 @@ package main
 
 import (
 	"context"
+	"errors"
 	"fmt"
 	"sync"
 	"time"
@@ -301,6 +302,7 @@ type scnRun struct {
 	visits   map[int]int // per run: node -> visits so far
 	att      map[int]int // node -> attempts in current visit
 	cancel   func()
+	ctx      context.Context // the context of the current run
 	nodes    map[int]flyt.Node
 	nCb      int
 	maxCb    int
@@ -400,6 +402,10 @@ func (c *leafCore) exec(arg Obs) (any, error, error) {
 	default:
 		ev["err"] = t
 		s.log(ev)
+		if o.Cancel && t%2 == 1 && s.ctx != nil && s.ctx.Err() != nil {
+			// the attempt that cancelled the context fails with (a wrap of) the context's error, as a well-behaved exec would
+			s.reg.SetErr(t, &wrapErr{msg: fmt.Sprintf("attempt gave up %d", t), inner: s.ctx.Err()})
+		}
 		// a failing attempt also hands back a partial value (io.Reader style): it must never reach post
 		junk := &payloadPtr{Tok: junkBase + t}
 		s.reg.SetPayload(junkBase+t, junk)
@@ -553,8 +559,13 @@ func buildFuncNode(c *leafCore, nc NodeCfg, builderForm bool) flyt.Node {
 	}
 	fb := func(p any, err error) (any, error) { return c.fallback(p, err) }
 
+	// batch settings on an ordinary function node are inert: it must keep the ordinary node lifecycle
+	inertBatchOpts := c.id%2 == 0
 	if !builderForm {
 		opts := []any{flyt.WithMaxRetries(nc.N), flyt.WithWait(wait)}
+		if inertBatchOpts {
+			opts = append(opts, flyt.WithBatchConcurrency(3), flyt.WithBatchErrorHandling(false))
+		}
 		if nc.Sty[0] == "r" {
 			opts = append(opts, flyt.WithPrepFunc(prepR))
 		} else {
@@ -576,6 +587,9 @@ func buildFuncNode(c *leafCore, nc NodeCfg, builderForm bool) flyt.Node {
 		return flyt.NewNode(opts...)
 	}
 	b := flyt.NewNode().WithMaxRetries(nc.N).WithWait(wait)
+	if inertBatchOpts {
+		b = b.WithBatchConcurrency(2).WithBatchErrorHandling(false)
+	}
 	if nc.Sty[0] == "r" {
 		b = b.WithPrepFunc(prepR)
 	} else {
@@ -722,7 +736,9 @@ func runEngineScenario(cfg EngineCfg, script Script) ([]Event, *scnRun) {
 
 func runEngineScenarioOpt(cfg EngineCfg, script Script, viaFlowRun bool) ([]Event, *scnRun) {
 	assignKinds(&cfg)
-	s := &scnRun{flowRun: viaFlowRun, cfg: cfg, reg: NewRegistry(), script: script, store: flyt.NewSharedStore(), tok: 1,
+	reg0 := NewRegistry()
+	reg0.RunCtxKind = cfg.CtxKind
+	s := &scnRun{flowRun: viaFlowRun, cfg: cfg, reg: reg0, script: script, store: flyt.NewSharedStore(), tok: 1,
 		nodes: map[int]flyt.Node{}, maxCb: 400}
 	for id := range cfg.Nodes {
 		s.node(id+1, 0)
@@ -742,13 +758,19 @@ func runEngineScenarioOpt(cfg EngineCfg, script Script, viaFlowRun bool) ([]Even
 			}
 		}
 		var ctx context.Context
-		if cfg.CtxKind == "deadline" {
+		switch cfg.CtxKind {
+		case "deadline":
 			mc := newManualDeadlineCtx()
 			ctx, s.cancel = mc, mc.expire
-		} else {
+		case "cause":
+			// cancelled with a cause: the library must still report the context's error (ctx.Err())
+			c2, cancel := context.WithCancelCause(context.Background())
+			ctx, s.cancel = c2, func() { cancel(errors.New("service shutting down")) }
+		default:
 			c2, cancel := context.WithCancel(context.Background())
 			ctx, s.cancel = c2, cancel
 		}
+		s.ctx = ctx
 		ctx0 := r-1 < len(cfg.Ctx0) && cfg.Ctx0[r-1]
 		if ctx0 {
 			s.cancel()
